@@ -138,7 +138,7 @@ def rand_width(rng, w):
     return rng.randrange(0, top + 1)
 
 
-def random_model(rng, cls, enc, nsec=None, nseg=None, max_data=96, typed=None):
+def random_model(rng, cls, enc, nsec=None, nseg=None, max_data=96, typed=None, pht_last=False):
     """A random well-formed image: tables and data inside the file, pairwise disjoint, arbitrary
     order and gaps; segments may overlap each other and cover sections or not."""
     m = Model(cls, enc)
@@ -194,6 +194,8 @@ def random_model(rng, cls, enc, nsec=None, nseg=None, max_data=96, typed=None):
     pieces = [("sht", -1, shentsize * nsec), ("pht", -1, phentsize * nseg)] + \
              [("sec", i, len(s["data"])) for i, s in enumerate(secs) if s["data"] is not None]
     rng.shuffle(pieces)
+    if pht_last:      # program header table behind everything else (as patchelf-style tools produce)
+        pieces = [p for p in pieces if p[0] != "pht"] + [p for p in pieces if p[0] == "pht"]
     pos = ehsize
     place = {}
     for kind, i, ln in pieces:
@@ -232,6 +234,13 @@ def random_model(rng, cls, enc, nsec=None, nseg=None, max_data=96, typed=None):
         segs.append({"p_type": ty, "p_flags": rand_width(rng, 4), "p_offset": off, "p_vaddr": va,
                      "p_paddr": rand_width(rng, aw), "p_filesz": filesz, "p_memsz": memsz,
                      "p_align": rng.choice([0, 1, 8, 0x1000, 0x200000, rand_width(rng, aw)])})
+    if pht_last and segs:
+        # the last segment is a PT_LOAD with file contents inside the file, before the table
+        withdata = [s for s in secs if s["data"]]
+        if withdata:
+            s0 = rng.choice(withdata)
+            segs[-1].update({"p_type": PT_LOAD, "p_offset": s0["sh_offset"], "p_filesz": s0["sh_size"],
+                             "p_memsz": s0["sh_size"] + 88, "p_align": 4096, "p_flags": 6})
     m.sections = secs; m.segments = segs; m.size = total
     m.ehdr = {"e_type": rand_width(rng, 2), "e_machine": rand_width(rng, 2), "e_version": rand_width(rng, 4),
               "e_entry": rand_width(rng, aw), "e_phoff": place[("pht", -1)] if nseg else rng.choice([0, 0, 52]),
